@@ -235,6 +235,10 @@ def minStep (name : String) (minStart minEnd : VarId) (acc : MinAcc) (childName 
   { indTerms := acc.indTerms ++ it, count := acc.count + cnt,
     cons := acc.cons ++ [c1, c2], utility := acc.utility ++ r.utility }
 
+/-- The per-child loop of `MinExpression::parse`. -/
+def minAcc (path : Path) (name : String) (children : List (String × PR)) : MinAcc :=
+  children.foldl (fun a x => minStep name ⟨path, .minStart⟩ ⟨path, .minEnd⟩ a x.1 x.2) {}
+
 /-- Everything of `MinExpression::parse` after the children have been parsed. -/
 def finishMin (path : Path) (name : String) (children : List (String × PR)) : PR × List Var × List Constr :=
   let minInd : VarId := ⟨path, .minInd⟩
@@ -243,7 +247,7 @@ def finishMin (path : Path) (name : String) (children : List (String × PR)) : P
   let vars : List Var := [⟨minInd, name ++ "_min_indicator", .bin, some 0, .none⟩,
     ⟨minStart, name ++ "_min_start_time", .int, some 0, .none⟩,
     ⟨minEnd, name ++ "_min_end_time", .int, some 0, .none⟩]
-  let acc := children.foldl (fun a x => minStep name minStart minEnd a x.1 x.2) {}
+  let acc := minAcc path name children
   let allUtil := children.all (fun x => x.2.util)
   let bound := children.foldl (fun b x => addUb b x.2.ub) (some 0)
   if acc.count == 0 then
@@ -316,6 +320,11 @@ def isConst : TV → Bool
   | .const _ => true
   | .var _ => false
 
+/-- An indicator as a term of an "all of them" row: a variable counts, a constant does not. -/
+def indTermOf : TV → List (Int × VarId) × Nat
+  | .var v => ([(1, v)], 1)
+  | .const _ => ([], 0)
+
 def finishLt (path : Path) (name : String) (a b : PR) : PR × List Var × List Constr :=
   if !(a.util && b.util) then (PR.none, [], []) else
   let utility := a.utility ++ b.utility
@@ -326,17 +335,13 @@ def finishLt (path : Path) (name : String) (a b : PR) : PR × List Var × List C
     else (PR.none, [], [])
   else
     let sat : VarId := ⟨path, .ltSat⟩
-    let (ia, ca) := match a.ind with
-      | .var v => ([((1 : Int), v)], (1 : Nat))
-      | .const _ => ([], 0)
-    let (ib, cb) := match b.ind with
-      | .var v => ([((1 : Int), v)], (1 : Nat))
-      | .const _ => ([], 0)
+    let ia := indTermOf a.ind
+    let ib := indTermOf b.ind
     let cI : Constr := ⟨name ++ "_less_than_indicator_constraint", .eq, 0,
-      ia ++ ib ++ [(-(Int.ofNat (ca + cb)), sat)]⟩
-    let (t1, r1) := tvTerm 1 a.stop
-    let (t2, r2) := tvTerm (-1) b.start
-    let cH : Constr := ⟨name ++ "_happens_before_constraint", .le, 0 + r1 + r2, t1 ++ t2⟩
+      ia.1 ++ ib.1 ++ [(-(Int.ofNat (ia.2 + ib.2)), sat)]⟩
+    let t1 := tvTerm 1 a.stop
+    let t2 := tvTerm (-1) b.start
+    let cH : Constr := ⟨name ++ "_happens_before_constraint", .le, 0 + t1.2 + t2.2, t1.1 ++ t2.1⟩
     (⟨true, a.start, b.stop, utility, ub, .var sat⟩,
       [⟨sat, name ++ "_is_satisfied", .bin, some 0, .none⟩], [cI, cH])
 
